@@ -8,6 +8,7 @@ A `World` object hangs off the model.  It holds the script
     sends[(k, agent_id)]      -> [ {uid, to, delay|None, name} ]   events the agent sends in `act` of step k
     hook_ops[(k, "begin"|"end")] -> [population ops]                applied inside the round hooks of step k
     state_script[(k, agent_id)] -> new state                       applied in `act` of step k
+    act_ops[(k, agent_id)]    -> [delete ops]                      applied at the end of that agent's `act`
 and records what happened
     calls    [(kind, ...)]   begin / handle / act / end / collect, in order
     handled  [(k, agent_id, uid, agent_state)]
@@ -28,6 +29,7 @@ class World:
         self.hook_ops = {}
         self.state_script = {}
         self.prop_script = {}
+        self.act_ops = {}       # (k, agent_id) -> [population ops] applied at the END of that agent's act
         self.calls = []
         self.handled = []
         self.sent = []
@@ -96,6 +98,8 @@ class ScriptAgent(Agent):
                 self.set_property_value(name, value)
         for s in w.sends.get((w.k, self.id), ()):
             send(self.model, w, s, self.id)
+        for op in w.act_ops.get((w.k, self.id), ()):
+            w.apply_op(self.model, op)
 
 
 def send(model, w, s, sender_id):
